@@ -164,11 +164,13 @@ End AddPackage.
 
 (* ------------------------------------------------------------------ the module registry after the events *)
 Record modent := mkMod { m_path : list text; m_pkg : bool; m_id : N }.
-Record reg := mkReg { r_all : list modent;       (* System.allobjects (modules only, insertion order) *)
-                      r_unproc : list modent;    (* System.unprocessed_modules *)
-                      r_roots : list text;       (* [o.name for o in System.rootobjects] *)
-                      r_rootkinds : list Z;      (* [o.kind.value for o in System.rootobjects] *)
+Record rootent := mkRoot { ro_id : N; ro_name : text; ro_kind : Z }.
+Record reg := mkReg { r_all : list modent;        (* System.allobjects (modules only, insertion order) *)
+                      r_unproc : list modent;     (* System.unprocessed_modules *)
+                      r_rootobjs : list rootent;  (* System.rootobjects *)
                       r_next : N }.
+Definition r_roots (r : reg) : list text := map ro_name (r_rootobjs r).      (* [o.name for o in System.rootobjects] *)
+Definition r_rootkinds (r : reg) : list Z := map ro_kind (r_rootobjs r).     (* [o.kind.value for o in System.rootobjects] *)
 
 Fixpoint remove_id (i : N) (l : list modent) : list modent :=
   match l with
@@ -176,28 +178,50 @@ Fixpoint remove_id (i : N) (l : list modent) : list modent :=
   | m :: r => if N.eqb (m_id m) i then r else m :: remove_id i r
   end.
 
-Definition reg_append (r : reg) (parent : list text) (name : text) (is_pkg : bool) (all' unproc' : list modent) : reg :=
+Definition reg_append (r : reg) (parent : list text) (name : text) (is_pkg : bool)
+           (all' unproc' : list modent) (roots' : list rootent) : reg :=
   let m := mkMod (parent ++ [name]) is_pkg (r_next r) in
   mkReg (all' ++ [m]) (unproc' ++ [m])
-        (match parent with [] => r_roots r ++ [name] | _ => r_roots r end)
-        (match parent with [] => r_rootkinds r ++ [if is_pkg then kind_package else kind_module] | _ => r_rootkinds r end)
+        (match parent with
+         | [] => roots' ++ [mkRoot (r_next r) name (if is_pkg then kind_package else kind_module)]
+         | _ => roots'
+         end)
         (r_next r + 1)%N.
 
-(* _addUnprocessedModule + _handleDuplicateModule (no C modules) *)
+(* _addUnprocessedModule + _handleDuplicateModule (no C modules), as the code is since 3d2c96f / f6d4b31:
+   when the last added module wins, the replaced one goes away WITH every module below it (allobjects via _remove,
+   unprocessed_modules via its contents) and leaves rootobjects *)
 Definition reg_add (r : reg) (parent : list text) (name : text) (is_pkg : bool) : reg :=
   let fn := parent ++ [name] in
   match find (fun m => path_eqb (m_path m) fn) (r_all r) with
   | Some first =>
       if m_pkg first && negb is_pkg
-      then mkReg (r_all r) (r_unproc r) (r_roots r) (r_rootkinds r) (r_next r + 1)%N            (* packages win *)
-      else reg_append r parent name is_pkg                                      (* the last added module wins *)
+      then mkReg (r_all r) (r_unproc r) (r_rootobjs r) (r_next r + 1)%N            (* packages win *)
+      else                                                                        (* the last added module wins *)
+        let gone := map m_id (filter (fun m => is_prefix fn (m_path m)) (r_all r)) in
+        reg_append r parent name is_pkg
+                   (filter (fun m => negb (is_prefix fn (m_path m))) (r_all r))
+                   (filter (fun m => negb (existsb (N.eqb (m_id m)) gone)) (r_unproc r))
+                   (filter (fun o => negb (N.eqb (ro_id o) (m_id first))) (r_rootobjs r))
+  | None => reg_append r parent name is_pkg (r_all r) (r_unproc r) (r_rootobjs r)
+  end.
+
+(* before 3d2c96f / f6d4b31: only `first` left unprocessed_modules (its sub-modules were still analysed) and it stayed
+   in rootobjects *)
+Definition reg_add_old (r : reg) (parent : list text) (name : text) (is_pkg : bool) : reg :=
+  let fn := parent ++ [name] in
+  match find (fun m => path_eqb (m_path m) fn) (r_all r) with
+  | Some first =>
+      if m_pkg first && negb is_pkg
+      then mkReg (r_all r) (r_unproc r) (r_rootobjs r) (r_next r + 1)%N
+      else reg_append r parent name is_pkg
                       (filter (fun m => negb (is_prefix fn (m_path m))) (r_all r))
-                      (remove_id (m_id first) (r_unproc r))
-  | None => reg_append r parent name is_pkg (r_all r) (r_unproc r)
+                      (remove_id (m_id first) (r_unproc r)) (r_rootobjs r)
+  | None => reg_append r parent name is_pkg (r_all r) (r_unproc r) (r_rootobjs r)
   end.
 
 Definition reg_of_events (evs : list event) : reg :=
-  fold_left (fun r e => match e with EvModule p n k => reg_add r p n k | _ => r end) evs (mkReg [] [] [] [] 0%N).
+  fold_left (fun r e => match e with EvModule p n k => reg_add r p n k | _ => r end) evs (mkReg [] [] [] 0%N).
 
 (* ------------------------------------------------------------------ System.root_names (a set) and its uses *)
 Fixpoint dedup (l : list text) : list text :=
